@@ -323,3 +323,15 @@ class SympyCondition(Condition):
                 # Measurements get prepended with "m_", so the condition needs to be too.
                 return f'm_{self.expr.lhs}=={self.expr.rhs}'
         raise ValueError('QASM is defined only for SympyConditions of type key == constant.')
+
+    def _qasm_(self, args: cirq.QasmArgs, **kwargs) -> str | None:
+        text = self.qasm
+        key = f'm_{self.expr.lhs}'
+        bit_count = args.meas_key_bitcount.get(key, 1)
+        value = int(self.expr.rhs)
+        if bit_count > 1 and 0 <= value < 2**bit_count:
+            # Cirq reads the measured bits as a big-endian integer (first qubit is the most
+            # significant bit) while a QASM register is little-endian (bit 0, which holds the first
+            # qubit, is the least significant one).
+            return f'{key}=={int(format(value, f"0{bit_count}b")[::-1], 2)}'
+        return text
